@@ -9,6 +9,8 @@ import (
 
 	"gunyucheck/core"
 
+	"golang.org/x/tools/go/packages"
+
 	"golang.org/x/tools/go/ssa"
 )
 
@@ -358,4 +360,31 @@ func lastDecisionPos(p *core.Path) token.Pos {
 		}
 	}
 	return token.NoPos
+}
+
+// switchCasesOn collects, for every switch under root whose tag is a selector
+// expression ending in .field, the string constants of its case clauses.
+func switchCasesOn(p *packages.Package, root ast.Node, field string) [][]string {
+	var out [][]string
+	ast.Inspect(root, func(n ast.Node) bool {
+		sw, ok := n.(*ast.SwitchStmt)
+		if !ok || sw.Tag == nil {
+			return true
+		}
+		se, ok := sw.Tag.(*ast.SelectorExpr)
+		if !ok || se.Sel.Name != field {
+			return true
+		}
+		var cs []string
+		for _, cl := range sw.Body.List {
+			for _, e := range cl.(*ast.CaseClause).List {
+				if tv, ok := p.TypesInfo.Types[e]; ok && tv.Value != nil && tv.Value.Kind() == constant.String {
+					cs = append(cs, constant.StringVal(tv.Value))
+				}
+			}
+		}
+		out = append(out, cs)
+		return true
+	})
+	return out
 }
